@@ -74,12 +74,15 @@ type Contract struct {
 	Loops        map[int]*LoopSpec
 	Sweep        []string
 	FreshResult  bool
+	Reveal       []string // opaque predicates whose definition this function's proof may use
+	Effects      string // "validation": generic frame discipline of code working on pooled validator objects
 	CaseParam    string // verify the body once per listed length of this slice parameter (lengths become literals, loops unroll)
 	CaseLens     []int
 	Recycled     bool // result is a pooled object: fresh or previously redeemed, fields unknown, live afterwards
 	NoSweep      bool
 	Line         string
 	Assumes      []*Clause // explicit assumptions (reported)
+	AssumeResult []*Clause // trusted facts about the result (reported), e.g. pool invariants established by the matching Redeem
 	Strings      bool      // use string theory ops
 	Params       []string  // for extern/iface blocks w/o ssa function: parameter names (optional)
 }
@@ -92,6 +95,7 @@ type Pred struct {
 	Text   string
 	Ret    string // for ufunc: result type name
 	UF     bool
+	Opaque bool // expanded only in functions that `reveal` it; elsewhere an uninterpreted predicate over value snapshots
 }
 
 type ContractSet struct {
@@ -100,10 +104,17 @@ type ContractSet struct {
 	Files []string
 	NAssume int
 	UsesPublished bool
+	ValidatorTypes map[string]bool
+	MutableTypes   map[string]bool
+	Lemmas         map[string][]*Clause // opaque predicate -> sufficient conditions (over the predicate's parameters)
+	Axioms         []*Clause // global assumptions about package-level state (reported), e.g. initialised globals
+	UnframedTypes  map[string]bool
+	OwnedFields    map[string]bool // "T.f": the backing array / map stored in this field belongs exclusively to the object
+	PooledTypes    map[string]bool // immutable-by-default types of which scratch copies live in a pool
 	TypeInvs map[string][]*Clause // struct type name -> invariants over `self` (pointer to the struct)
 }
 
-var reHead = regexp.MustCompile(`^(requires|ensures|invariant|assume)(\[[A-Za-z0-9_,\- ]*\])?\s+(.*)$`)
+var reHead = regexp.MustCompile(`^(requires|ensures|invariant|assume_result|assume)(\[[A-Za-z0-9_,\- ]*\])?\s+(.*)$`)
 
 func parseTags(s string) []string {
 	s = strings.Trim(s, "[] ")
@@ -121,7 +132,7 @@ func parseTags(s string) []string {
 }
 
 func ParseContracts(files ...string) (*ContractSet, error) {
-	cs := &ContractSet{ByKey: map[string]*Contract{}, Preds: map[string]*Pred{}, TypeInvs: map[string][]*Clause{}}
+	cs := &ContractSet{ByKey: map[string]*Contract{}, Preds: map[string]*Pred{}, TypeInvs: map[string][]*Clause{}, ValidatorTypes: map[string]bool{}, MutableTypes: map[string]bool{}, PooledTypes: map[string]bool{}, OwnedFields: map[string]bool{}, UnframedTypes: map[string]bool{}, Lemmas: map[string][]*Clause{}}
 	for _, f := range files {
 		data, err := os.ReadFile(f)
 		if err != nil {
@@ -180,6 +191,39 @@ func (cs *ContractSet) parseFile(fname, src string) error {
 			cs.ByKey[key] = cur
 			pendingKF = nil
 			continue
+		case "axiom":
+			e, err := parser.ParseExpr(rest)
+			if err != nil {
+				return fail("axiom: %v", err)
+			}
+			cs.Axioms = append(cs.Axioms, &Clause{Text: rest, Expr: e, Line: where})
+			cs.NAssume++
+			continue
+		case "owned_fields":
+			for _, f := range strings.Split(rest, ",") {
+				if f = strings.TrimSpace(f); f != "" {
+					cs.OwnedFields[f] = true
+				}
+			}
+			continue
+		case "validator_types", "mutable_types", "pooled_types", "unframed_types":
+			for _, tn := range strings.Split(rest, ",") {
+				tn = strings.TrimSpace(tn)
+				if tn == "" {
+					continue
+				}
+				switch word {
+				case "validator_types":
+					cs.ValidatorTypes[tn] = true
+				case "mutable_types":
+					cs.MutableTypes[tn] = true
+				case "unframed_types":
+					cs.UnframedTypes[tn] = true
+				default:
+					cs.PooledTypes[tn] = true
+				}
+			}
+			continue
 		case "typeinv":
 			// typeinv <Type>: <expr over self>
 			i := strings.Index(rest, ":")
@@ -192,6 +236,30 @@ func (cs *ContractSet) parseFile(fname, src string) error {
 				return fail("typeinv: %v", err)
 			}
 			cs.TypeInvs[tn] = append(cs.TypeInvs[tn], &Clause{Text: strings.TrimSpace(rest[i+1:]), Expr: e, Line: where})
+			continue
+		case "lemma":
+			// lemma <pred>(<params>) if <cond>: the opaque predicate holds whenever cond does (proved where the predicate is revealed)
+			m := reLemma.FindStringSubmatch(rest)
+			if m == nil {
+				return fail("lemma <pred>(<params>) if <expr>")
+			}
+			e, err := parser.ParseExpr(m[3])
+			if err != nil {
+				return fail("lemma: %v", err)
+			}
+			cs.Lemmas[m[1]] = append(cs.Lemmas[m[1]], &Clause{Text: m[3], Expr: e, Line: where})
+			continue
+		case "opaque":
+			w2, r2 := splitWord(rest)
+			if w2 != "pred" {
+				return fail("opaque pred ...")
+			}
+			p, err := parsePred(r2, false)
+			if err != nil {
+				return fail("%v", err)
+			}
+			p.Opaque = true
+			cs.Preds[p.Name] = p
 			continue
 		case "pred", "ufunc":
 			p, err := parsePred(rest, word == "ufunc")
@@ -251,6 +319,14 @@ func (cs *ContractSet) parseFile(fname, src string) error {
 			cur.FreshResult = true
 		case word == "recycled":
 			cur.Recycled = true
+		case word == "effects":
+			cur.Effects = strings.TrimSpace(rest)
+		case word == "reveal":
+			for _, n := range strings.Split(rest, ",") {
+				if n = strings.TrimSpace(n); n != "" {
+					cur.Reveal = append(cur.Reveal, n)
+				}
+			}
 		case word == "case_len":
 			f := strings.Fields(rest)
 			if len(f) < 2 {
@@ -334,6 +410,9 @@ func (cs *ContractSet) parseFile(fname, src string) error {
 			case "assume":
 				cur.Assumes = append(cur.Assumes, c)
 				cs.NAssume++
+			case "assume_result":
+				cur.AssumeResult = append(cur.AssumeResult, c)
+				cs.NAssume++
 			}
 		}
 	}
@@ -386,6 +465,8 @@ func splitTop(s string, sep rune) []string {
 	out = append(out, s[last:])
 	return out
 }
+
+var reLemma = regexp.MustCompile(`^([A-Za-z_][A-Za-z0-9_]*)\(([^)]*)\)\s+if\s+(.*)$`)
 
 var rePred = regexp.MustCompile(`^([A-Za-z_][A-Za-z0-9_]*)\(([^)]*)\)\s*(.*)$`)
 
